@@ -35,7 +35,8 @@ def run(tier: str, seed: int) -> CompResult:
             self.sent.append(obj)
 
         def _getremoteerror(self) -> Any:
-            return None
+            # nothing / a lost connection / an exception of the worker's entry code: the end marker means the worker is gone
+            return rng.choice([None, None, EOFError("connection lost"), RuntimeError("remote entry code raised")])
 
     def mk_report(outcome: str) -> dict:
         rep = pytest.TestReport(nodeid="t.py::test_x", location=("t.py", 1, "test_x"), keywords={}, outcome=outcome,
